@@ -42,6 +42,14 @@ REQUIRED = [P + t for t in (
     # G4 (radial)
     "admissible_iff", "radial_selected_is_admissible_root", "radial_selected_is_largest",
     "radial_transparent_no_admissible_root", "radial_linear_case", "radial_forward_differences_exact",
+    # G4b (radial coverage / opacity flag), G3b (linear projective loop), G6 (conical)
+    "radial_contained_paints_every_pixel", "radial_contained_pixel_painted", "radial_contained_row_painted",
+    "radial_contained_projective_pixel_painted_partial", "opaque_stops_paint_alpha_one",
+    "linear_conical_rows_always_painted", "radial_opaque_flag_sound", "radial_tangent_half_plane",
+    "radial_exterior_transparent",
+    "linear_projective_position_close", "linear_projective_vector", "linear_projective_wzero_repeats",
+    "conical_parameter_is_angle", "conical_parameter_range", "conical_scale_invariant", "conical_seam",
+    "conical_decreases_with_angle",
     # G5 (degenerate geometry)
     "linear_coincident_points_guarded", "linear_wzero_guarded", "radial_wzero_cleared",
     "radial_a_zero_b_zero_transparent", "radial_equal_circles_guarded",
@@ -54,8 +62,12 @@ PARTIAL = {
                 "false in mirrored REFLECT periods at hard edges (history dependence, excluded points of the check), "
                 "tested by the walk-history oracle elsewhere",
     "linear_affine_position_close_partial": "the code truncates t0 and i*inc separately: the used position is < 2 units (2^-15) from the exact one, not < 1",
-    "IEEE": "float/double rounding, sqrt and atan2 are not modelled (model and Spec are exact over Rat); conical: no theorem beyond the "
-            "definition (atan2 is a parameter), tested against long double atan2l",
+    "IEEE": "float/double rounding, sqrt and atan2 are not modelled (model and Spec are exact over Rat); conical: atan2/2pi is a "
+            "parameter assumed to satisfy IsTurn (range, scale invariance, axis values, half-plane signs; satisfiable: diamond_isTurn); "
+            "no rotation/additivity law of the angle is assumed or proved; tested against long double atan2l",
+    "radial_contained_projective_pixel_painted_partial": "a radial gradient flagged opaque (a < 0, repeat not NONE, opaque stops) is "
+            "cleared at a pixel whose homogeneous coordinate is exactly 0 under a projective transform (radial_wzero_cleared): "
+            "the opacity flag is proved sound for affine rows (radial_opaque_flag_sound) and for projective pixels with w != 0 only",
     "radial-negative-radii": "radial_selected_is_largest assumes r1, r2 >= 0 (the API does not check)",
 }
 
